@@ -1,5 +1,6 @@
 SPECIFICATION Spec
 INVARIANT WLaws
 INVARIANT CLaws
+INVARIANT ResigmaLaws
 CONSTRAINT EmitConstraint
 CHECK_DEADLOCK FALSE
